@@ -185,6 +185,7 @@ func Prog(req *Request) (res *ProgRes) {
 		}
 	}
 	opts = append(opts, clock)
+	readOptions(opts)
 	r.container = dig.New(opts...)
 	r.scopes = []scope{r.container}
 
@@ -218,6 +219,17 @@ func (r *run) guarded(i int, or *OpRes, call func() error) {
 		or.V = verdictErr{r.classify(err)}
 	} else {
 		or.V = "ok"
+	}
+}
+
+// readOptions prints every option the way a caller who logs its configuration would (the options implement
+// fmt.Stringer); a panic in there surfaces, through guarded, as a panic of dig's own.
+func readOptions(opts interface{}) {
+	v := reflect.ValueOf(opts)
+	for i := 0; i < v.Len(); i++ {
+		if fmt.Sprint(v.Index(i).Interface()) == "" {
+			panic("an option prints as the empty string")
+		}
 	}
 }
 
@@ -313,7 +325,7 @@ func (r *run) exec(i int, op Op, or *OpRes) {
 		if op.Info {
 			opts = append(opts, dig.FillProvideInfo(&pi))
 		}
-		r.guarded(i, or, func() error { return sc.Provide(fs.value, opts...) })
+		r.guarded(i, or, func() error { readOptions(opts); return sc.Provide(fs.value, opts...) })
 		if op.Info && !(pi.ID == 0 && pi.Inputs == nil && pi.Outputs == nil) {
 			or.Info = &Info{ID: r.infoID(int64(pi.ID), op.Fn), In: r.inputs(pi.Inputs), Out: r.outputs(pi.Outputs)}
 		}
@@ -327,7 +339,7 @@ func (r *run) exec(i int, op Op, or *OpRes) {
 		if op.Info {
 			opts = append(opts, dig.FillDecorateInfo(&di))
 		}
-		r.guarded(i, or, func() error { return sc.Decorate(fs.value, opts...) })
+		r.guarded(i, or, func() error { readOptions(opts); return sc.Decorate(fs.value, opts...) })
 		if op.Info && !(di.ID == 0 && di.Inputs == nil && di.Outputs == nil) {
 			or.Info = &Info{ID: r.infoID(int64(di.ID), op.Fn), In: r.inputs(di.Inputs), Out: r.outputs(di.Outputs)}
 		}
@@ -338,7 +350,7 @@ func (r *run) exec(i int, op Op, or *OpRes) {
 		if op.Info {
 			opts = append(opts, dig.FillInvokeInfo(&ii))
 		}
-		r.guarded(i, or, func() error { return sc.Invoke(fs.value, opts...) })
+		r.guarded(i, or, func() error { readOptions(opts); return sc.Invoke(fs.value, opts...) })
 		if op.Info && ii.Inputs != nil {
 			or.Info = &Info{ID: 0, In: r.inputs(ii.Inputs), Out: [][]interface{}{}}
 		}
